@@ -21,6 +21,29 @@ CLAIMED = {
         "not as a violation.",
    technique="TLA+ functional specification + TLC exhaustive small-scope + TLAPS proof + TLC trace validation of real calls",
    engine="mc+tlaps+seqreplay+tv", design_ref="6/C13"),
+ "C14": dict(
+   category="model_checking",
+   text="ContainersAbs.tla gives every container its abstract data type (sequence, bounded multiset, priority queue, set, "
+        "map, optional slots) as the set of allowed (result, next state) pairs; the real containers (gdeque, FixedSizeRing/"
+        "Bag incl. the concurrent bag, gslist, flat_map, PODResizeableArray, MinHeap family, InsertBag, LazyArray/Object/"
+        "optional, two-level iterators, LargeArray) are driven through ALL operation sequences to a depth bound at chunk "
+        "sizes 1-4 plus seeded random walks, with an instance-tracking element type; TLC walks the recorded history tree "
+        "(one state per real operation) and judges result, forward and backward traversal and life-cycle counters.",
+   note="Trusted: TLC, the adapters in harness/src/containers.cpp (they only forward calls and traverse through the public "
+        "API). Depth/width bounds as listed in the evidence; histories beyond them are sampled, not enumerated.",
+   technique="TLA+ abstract data types + TLC trace validation over an exhaustively enumerated history tree of the real containers",
+   engine="mc+seqreplay+tv", design_ref="6/C14"),
+ "C15": dict(
+   category="model_checking",
+   text="Collections.tla defines the sequential meaning (fold, set algebra, partition) and transcribes the bitset range-reset "
+        "mask arithmetic, which TLC proves equal to 'clear begin..end' for all ranges of 9 sizes; MCAtomicOps model-checks the "
+        "CAS loops (incl. spurious failure) for 3 threads; the real reducers (all kinds x int/long/unsigned/float/double, +=/-=, "
+        "reset), bitset, atomic helpers, union-find, per-thread containers and insert bags run on 1-8 real pool threads "
+        "(exhaustive small multisets x thread assignments + seeded random with perturbation) and TLC judges every scenario.",
+   note="Trusted: TLC, harness logging. Schedules of the real runs are sampled; exhaustive interleaving coverage is at the "
+        "model level. Dyadic floating-point values only.",
+   technique="TLA+ functional/abstract specification + TLC model checking of CAS loops + TLC trace validation of real multi-threaded runs",
+   engine="mc+free+tv", design_ref="6/C15"),
 }
 
 NOT_YET = "check not built yet in this round (specification and harness planned in DESIGN.md section 6); not claimed"
